@@ -59,7 +59,8 @@ FORWARD_RULES = {
     'Forward2': [(r'@x$', '@x2'), (r'^a@', 'never@')],
     # the third rule differs from recipients of the alphabet only in letter case: rules match as they are written
     'Forward3': [(r'^nomatch$', 'q'), (r'^nodomain$', ''), (r'^C@y$', 'cased@w')],
-    'Forward4': [(r'^b@x$', 'a@x'), (r'^e@$', 'e@Y')],
+    # the first rule rewrites c@y to itself: it matched, so the catch-all behind it must not see that recipient
+    'Forward4': [(r'^c@y$', 'c@y'), (r'^b@x$', 'a@x'), (r'^e@$', 'e@Y'), (r'@y$', '@y9')],
 }
 POLICY_NAMES = ['RecipientSplit', 'RecipientDomainSplit', 'Forward1', 'Forward2', 'Forward3', 'Forward4',
                 'AddDateHeader', 'AddMessageIdHeader', 'AddReceivedHeader', 'ReturnsInput', 'KeepFirstCopyRest']
@@ -367,7 +368,7 @@ class Case(object):
             results = self.queue.enqueue(env)
         except Exception as e:
             bad({'kind': 'exception:' + type(e).__name__, 'raised_in': _raised_in(e)},
-                'enqueue raised %s: %s' % (type(e).__name__, e))
+                'enqueue raised %s: %s' % (type(e).__name__, re.sub(r' at 0x[0-9a-f]+', '', str(e))))
             return out, {'written': None}
         written = self.store.written
         objs = [w[0] for w in written]
